@@ -26,7 +26,7 @@ func init() {
 		NotDecided:  []string{"exactly-once across interleavings of subscribe/close with an in-flight change", "histories as such"},
 		NeedsCG:     true,
 		Rules: []core.Rule{
-			{ID: "C10-R1", Title: "fan-out guards: originator skipped, session present, subscribed to this characteristic, one write per recipient", Decides: "exactly the subscribed others receive exactly one event", Floor: 5, Run: func(c *core.Ctx) { c10r1(c); eventNotInsideResponse(c) }},
+			{ID: "C10-R1", Title: "fan-out guards: originator skipped, session present, subscribed to this characteristic, one write per recipient", Decides: "exactly the subscribed others receive exactly one event", Floor: 5, Run: func(c *core.Ctx) { c10r1(c); eventNotInsideResponse(c); returnsUndecorated(c, "C10") }},
 			{ID: "C10-R2", Title: "callback wiring for every characteristic", Decides: "every change of every characteristic reaches the fan-out with the right originator", Floor: 5, Run: c10r2},
 			{ID: "C10-R3", Title: "unchanged value => no callbacks; compared value = stored value", Decides: "no event when the value did not change", Floor: 3, Run: func(c *core.Ctx) { c10r3(c); passThrough(c, "C10"); callbackArgumentOrder(c) }},
 			{ID: "C10-R4", Title: "subscription state per session, keyed by the characteristic object", Decides: "never-subscribed / unsubscribed connections receive none", Floor: 6, Run: c10r4},
